@@ -112,6 +112,8 @@ def collect_cases(chk, results, cases_path):
                     seen.add(hk)
                     if neg is None:
                         neg = corrupt(inner)
+                        if neg is not None:
+                            neg[1]["orig_line"] = n + 2       # header is line 0, the corrupted copy line 1
                     body.write(inner + "\n")
                     n += 1
                     if n % 4001 == 7:
@@ -185,6 +187,7 @@ def replay_trees(chk, testbin, cases_path, hdr, ntrees, negwant, tmpd):
     if stats.get("trees") != ntrees + 1:
         raise C.Undecided("tree replay handled %s of %d trees" % (stats.get("trees"), ntrees + 1))
     negseen = set()
+    origbad = set()
     groups = {}
     singles = set()
     with open(out) as f:
@@ -198,6 +201,8 @@ def replay_trees(chk, testbin, cases_path, hdr, ntrees, negwant, tmpd):
             if m["line"] == 1:
                 negseen.add((m["kind"], m["idx"], m["which"]))
                 continue
+            if m["line"] == negwant["orig_line"]:
+                origbad.add((m["idx"], m["which"]))
             k = tree_key(m, singles)
             g = groups.setdefault(k, {"n": 0, "first": m})
             g["n"] += 1
@@ -207,7 +212,9 @@ def replay_trees(chk, testbin, cases_path, hdr, ntrees, negwant, tmpd):
     if "set" in negwant:
         need.append(("file-set-differs", negwant["set"], "one"))
     for nd in need:
-        if nd not in negseen:
+        # a corrupted expectation must be flagged - unless the real code already contradicts the uncorrupted one
+        # (then that case is reported as a violation below and the corrupted copy may happen to agree with the defect)
+        if nd not in negseen and (nd[1], nd[2]) not in origbad:
             raise C.Undecided("negative control not flagged (%s): the replay does not compare anything" % (nd,))
     for k in sorted(groups):
         g = groups[k]
@@ -664,7 +671,7 @@ def check(chk):
         t0 = time.time()
         run_lines(chk, testbin, tmpd, thorough, sd, box["lines"])
         C.log("directive lines %.1fs" % (time.time() - t0))
-        if os.environ.get("VERIF_C16_NOPROG") != "1":
+        if (thorough or os.environ.get("VERIF_C16_PROG") == "1") and os.environ.get("VERIF_C16_NOPROG") != "1":
             t0 = time.time()
             run_programs(chk, cases_path, hdr, thorough, sd)
             C.log("compiled programs %.1fs" % (time.time() - t0))
@@ -679,8 +686,8 @@ def check(chk):
         "Embed.tla was validated against `go list` (go1.24.0) on the sampled cases counted in spec_cases_validated_by_go_list; "
         "the error class is compared for information only (the statement demands rejection, not a message)",
         "a tab directly after //go:embed is left unspecified (go/build honours it, the compiler does not)",
-        "materialisation of the resolved files as globals / embed.FS tables by cl/embed.go is not executed by this check "
-        "(only BuildFSEntries, the table it copies, is)",
+        "materialisation of the resolved files as globals / embed.FS tables by cl/embed.go is executed only in the thorough tier "
+        "(llgo-compiled programs printing string, []byte and embed.FS contents; quick: only BuildFSEntries, the table it copies)",
     ]
 
 
